@@ -5,6 +5,10 @@ def hist(config, max_h, budget):
     return {"monitor": "hist", "config": config, "args": ["--max", max_h, "--budget-s", budget, "--threads", 16]}
 
 
+def mon(name, configs=("A",), args=()):
+    return [{"monitor": name, "config": c, "args": list(args)} for c in configs]
+
+
 def both(quick, thorough):
     """History monitor on config A (quick) / A and B (thorough)."""
     return {
@@ -22,14 +26,10 @@ PLAN = {
     "C06": both((800, 40), (16000, 420)),
     "C09": both((800, 40), (16000, 420)),
     "C11": both((500, 40), (10000, 420)),
-    "C13": both((600, 40), (12000, 420)),
+    "C13": {k: v + mon("golden", ("A", "B")) for k, v in both((600, 40), (12000, 420)).items()},
     "C18": both((400, 40), (8000, 420)),
 }
 
-
-
-def mon(name, configs=("A",), args=()):
-    return [{"monitor": name, "config": c, "args": list(args)} for c in configs]
 
 
 PLAN.update({
@@ -124,8 +124,10 @@ RULES = {
         "rule": "lifecycle histories (edits, rekey, prune, refresh, recaps; unicode names; random hints) with a round-trip "
                 "injected at random steps (MSK, MPK, USK, XEnc, structure): length()==bytes, deserialize(serialize(x))==x, "
                 "the independent wire reader consumes the bytes exactly, and the history continues with the deserialized "
-                "object. Non-trivial = >= 2 injections. Distinct = hash of (structure shape, operation-kind sequence).",
-        "evaluation_counters": _HIST_EV,
+                "object. Non-trivial = >= 2 injections. Distinct = hash of (structure shape, operation-kind sequence). Plus golden "
+                "vectors serialized by the pinned release (MSK, 4 MPKs, 5 USKs, 11 encapsulations, headers; both configs): loaded, "
+                "the recorded decapsulation table replayed, then refreshed / edited / re-keyed with the current tree.",
+        "evaluation_counters": _HIST_EV + ["golden_decaps", "golden_objects_loaded"],
         "min_evaluations": {"quick": 3000, "thorough": 30000},
     },
     "C18": {
